@@ -1,3 +1,5 @@
+from concurrent.futures import wait
+
 import strax
 from .plugin import Plugin
 
@@ -192,7 +194,19 @@ class ParallelSourcePlugin(Plugin):
 
     def cleanup(self, wait_for):
         print(f"{self.__class__.__name__} terminated. Waiting for {len(wait_for)} pending futures.")
+        sub_savers = [s for savers in self.sub_savers.values() for s in savers]
+        if sub_savers:
+            wait(wait_for, timeout=max(s.timeout for s in sub_savers))
+        failed = [f for f in wait_for if f.done() and f.exception() is not None]
         for savers in self.sub_savers.values():
             for s in savers:
-                s.close(wait_for=wait_for)
+                if failed:
+                    # A failed computation did not save its chunk: close the
+                    # inlined savers with that exception so it is recorded
+                    try:
+                        raise failed[0].exception()
+                    except Exception:
+                        s.close(wait_for=wait_for)
+                else:
+                    s.close(wait_for=wait_for)
         super().cleanup(wait_for)
